@@ -237,7 +237,7 @@ Theorem rendered_legal T O :
   Forall (C06_Round.pair_ok O) q ->
   host <> [] -> (fam =? 6) = false -> memN 58 host = false -> o_idna_enc O host = MOk ht ->
   ht <> [] -> forallb (not_in [58; 64; 47; 63; 35]) ht = true -> legal (ok_regname false) ht = true ->
-  match port with Some p => (0 <= p < 65536)%Z | None => True end ->
+  port_wf port = true ->
   forall full, to_text T O true u = MOk full -> wf_ref false full = true.
 Proof.
   intros TOK scheme sep user pw fam host port rest q frag ht nfc u
@@ -265,7 +265,7 @@ Theorem rendered_legal_v6 T O :
   Forall (C06_Round.pair_ok O) q ->
   (* an IPv6 literal: hex digits, ':' and '.', at least one ':' *)
   memN 58 host = true -> forallb (fun c => hexdig c || memN c [58; 46]) host = true ->
-  match port with Some p => (0 <= p < 65536)%Z | None => True end ->
+  port_wf port = true ->
   forall full, to_text T O true u = MOk full -> wf_ref false full = true.
 Proof.
   intros TOK scheme sep user pw fam host port rest q frag nfc u
